@@ -292,7 +292,10 @@ func c02Cause(c *cluster, replica string, m committedMsg) string {
 			return "/replica-added-to-isr-after-the-commit"
 		}
 	}
-	return c.h.fallbackTag(m.off)
+	if t := c.h.fallbackTag(m.off); t != "" {
+		return t
+	}
+	return c.h.fallbackKeptTag(replica)
 }
 
 func c02Committed(c *cluster) []committedMsg {
@@ -407,6 +410,16 @@ func c02Boundary(c *cluster, final bool) {
 				}
 				h.oc.Checks++
 				if a.log[off] != bv {
+					tag := tag
+					if tag == "" {
+						tag = h.fallbackTag(off)
+					}
+					if tag == "" {
+						tag = h.fallbackKeptTag(a.n.id, b.n.id)
+					}
+					if tag == "" && (a.outdated || b.outdated) {
+						tag = "/leader-cut-off-from-the-controller-committed"
+					}
 					h.fail("C02/diverged", "C02/diverged-below-hw"+tag, "%s (hw %d) and %s (hw %d) hold different messages at offset %d: %q vs %q", a.n.id, a.hw, b.n.id, b.hw, off, trunc([]byte(a.log[off]), 20), trunc([]byte(bv), 20))
 					return
 				}
